@@ -94,12 +94,13 @@ def fresh_dir(path):
 
 # ------------------------------------------------------------------ implementation side
 
-def run_enum(progs, outdir, cap=50000, jobs=12, clock=False, timeout=1800):
-    """Enumerate the runtime's whole schedule tree for every program (independent walker)."""
+def run_enum(progs, outdir, cap=50000, jobs=12, clock=False, timeout=1800, extra=()):
+    """Enumerate the runtime's whole schedule tree for every program (independent walker), or with
+    extra=("--mode","sample",...) sample it under the built-in schedulers."""
     fresh_dir(outdir)
     pfile = os.path.join(outdir, "in.ndjson")
     write_ndjson(pfile, progs)
-    cmd = [BIN, "enum", "--progs", pfile, "--out", outdir, "--cap", str(cap), "--jobs", str(jobs)]
+    cmd = [BIN, "enum", "--progs", pfile, "--out", outdir, "--cap", str(cap), "--jobs", str(jobs)] + list(extra)
     if clock:
         cmd.append("--clock")
     t0 = time.time()
